@@ -81,6 +81,22 @@ func (fc *FuncCtx) constOf(e ast.Expr) (Term, bool) {
 
 // eval evaluates an expression to a single value.
 func (fc *FuncCtx) eval(st *State, e ast.Expr) Term {
+	t := fc.eval1(st, e)
+	if t.Bits == 0 && t.T != nil {
+		if _, _, bits, signed, ok := intRange(t.T); ok && !signed && bits < 64 {
+			t.Bits = bits
+		}
+		if lit, ok := isLiteral(t.S); ok && lit.Sign() >= 0 && lit.BitLen() < 63 {
+			t.Bits = lit.BitLen()
+			if t.Bits == 0 {
+				t.Bits = 1
+			}
+		}
+	}
+	return t
+}
+
+func (fc *FuncCtx) eval1(st *State, e ast.Expr) Term {
 	if c, ok := fc.constOf(e); ok {
 		return c
 	}
@@ -156,6 +172,9 @@ func (fc *FuncCtx) evalIdent(st *State, id *ast.Ident) Term {
 	case *types.Const:
 		return fc.w.constTerm(o.Val(), o.Type())
 	case *types.Var:
+		if a, ok := st.exprAlias[o]; ok {
+			return fc.evalAs(st, a, o.Type())
+		}
 		if a, ok := st.alias[o]; ok {
 			return fc.eval(st, a)
 		}
@@ -389,10 +408,27 @@ func (fc *FuncCtx) binop(st *State, op token.Token, a, b Term, t types.Type, n a
 			return r
 		}
 		p := pow2(int(k.Int64()))
+		kk := int(k.Int64())
 		if op == token.SHL {
+			if _, _, tbits, signed, ok := intRange(t); ok && a.Bits > 0 {
+				limit := tbits
+				if signed {
+					limit = tbits - 1
+				}
+				if a.Bits+kk <= limit {
+					// no overflow possible: exact product
+					return Term{S: "(* " + a.S + " " + p + ")", T: t, Bits: a.Bits + kk, Low: a.Low + kk}
+				}
+			}
 			return Term{S: wrapInt("(* "+a.S+" "+p+")", t, false), T: t}
 		}
-		return Term{S: "(div " + a.S + " " + p + ")", T: t} // floor division is arithmetic shift for negatives too
+		r := Term{S: "(div " + a.S + " " + p + ")", T: t} // floor division is arithmetic shift for negatives too
+		if a.Bits > kk {
+			r.Bits = a.Bits - kk
+		} else if a.Bits > 0 {
+			r.Bits = 1
+		}
+		return r
 	case token.AND:
 		return fc.bitAnd(st, a, b, t)
 	case token.OR:
@@ -431,9 +467,9 @@ func (fc *FuncCtx) bitAnd(st *State, a, b Term, t types.Type) Term {
 				x = "(mod " + x + " " + pow2(bits) + ")"
 			}
 			if lo == 0 {
-				return Term{S: "(mod " + x + " " + pow2(hi) + ")", T: t}
+				return Term{S: "(mod " + x + " " + pow2(hi) + ")", T: t, Bits: hi}
 			}
-			return Term{S: "(* (mod (div " + x + " " + pow2(lo) + ") " + pow2(hi-lo) + ") " + pow2(lo) + ")", T: t}
+			return Term{S: "(* (mod (div " + x + " " + pow2(lo) + ") " + pow2(hi-lo) + ") " + pow2(lo) + ")", T: t, Bits: hi, Low: lo}
 		}
 	}
 	return fc.bitOpaque(st, "&", a, b, t)
@@ -457,6 +493,17 @@ func (fc *FuncCtx) shapeOf(s string, t types.Type) (low int, high int) {
 				if p, ok := isLiteral(parts[2]); ok && p.Sign() > 0 && p.BitLen() > 0 && new(big.Int).And(p, new(big.Int).Sub(p, big.NewInt(1))).Sign() == 0 {
 					low = p.BitLen() - 1
 				}
+			}
+		}
+		return
+	}
+	if strings.HasPrefix(s, "(+ ") {
+		parts := splitSexp(s[1 : len(s)-1])
+		low = 64
+		for _, p := range parts[1:] {
+			l, _ := fc.shapeOf(p, t)
+			if l < low {
+				low = l
 			}
 		}
 		return
@@ -524,6 +571,20 @@ func splitSexp(s string) []string {
 // bitOr: a|b == a+b when the set bits are disjoint; this is emitted as a side obligation
 // "disjoint.or" in the form: one side is a multiple of 2^k and the other is < 2^k.
 func (fc *FuncCtx) bitOr(st *State, a, b Term, t types.Type, n ast.Node) Term {
+	if a.Bits > 0 && b.Bits > 0 {
+		hi, lo := a, b
+		if b.Low > a.Low {
+			hi, lo = b, a
+		}
+		if hi.Low >= lo.Bits {
+			// statically disjoint bit ranges: | is +
+			bits := hi.Bits
+			if lo.Bits > bits {
+				bits = lo.Bits
+			}
+			return Term{S: "(+ " + hi.S + " " + lo.S + ")", T: t, Bits: bits, Low: lo.Low}
+		}
+	}
 	la, _ := fc.shapeOf(a.S, t)
 	lb, _ := fc.shapeOf(b.S, t)
 	if lb > la {
@@ -801,6 +862,9 @@ func (fc *FuncCtx) toInterface(st *State, v Term, target types.Type) Term {
 		// nil pointers in interfaces are non-nil interfaces
 	}
 	oid := fc.fresh("box", tInt)
+	if fn := fc.unboxFn(v.T); fn != "" {
+		fc.assume(st, eq("("+fn+" "+oid.S+")", v.S))
+	}
 	return Term{S: "(any_other " + id + " " + oid.S + ")", T: target}
 }
 
@@ -851,14 +915,45 @@ func (fc *FuncCtx) typeMatch(st *State, v Term, target types.Type) (string, Term
 			return "(and ((_ is any_bytes) " + v.S + ") (= (any_bty " + v.S + ") " + id + "))", Term{S: "(any_bs " + v.S + ")", T: target}
 		}
 	}
+	if fn := fc.unboxFn(target); fn != "" {
+		val := Term{S: "(" + fn + " (any_oid " + v.S + "))", T: target}
+		if rf := fc.reg().rangeFact(val, 0); rf != "true" {
+			fc.assume(st, implies("((_ is any_other) "+v.S+")", rf))
+		}
+		return "(and ((_ is any_other) " + v.S + ") (= (any_oty " + v.S + ") " + id + "))", val
+	}
 	val := fc.fresh("unbox", target)
 	return "(= " + anyTypeID(v.S) + " " + id + ")", val
 }
 
 func (fc *FuncCtx) chanRecv(st *State, x *ast.UnaryExpr) Term {
+	return fc.chanRecvOK(st, x, "true")
+}
+
+func (fc *FuncCtx) chanRecvOK(st *State, x *ast.UnaryExpr, ok string) Term {
 	t := fc.typeOf(x)
-	if tp, ok := t.(*types.Tuple); ok {
+	if tp, isT := t.(*types.Tuple); isT {
 		t = tp.At(0).Type()
 	}
-	return fc.fresh("recv", t)
+	fc.eval(st, x.X)
+	v := fc.fresh("recv", t)
+	fc.chanRecvAssume(st, x.X, v, ok, x)
+	return v
+}
+
+// unboxFn declares (once) the function that recovers a boxed value of struct or pointer type
+// from the object id stored in the interface value.
+func (fc *FuncCtx) unboxFn(t types.Type) string {
+	switch t.Underlying().(type) {
+	case *types.Struct, *types.Pointer:
+	default:
+		return ""
+	}
+	sort := fc.reg().SortOf(t)
+	name := "unbox_" + sanitize(sort)
+	if !fc.reg().unboxFns[name] {
+		fc.reg().unboxFns[name] = true
+		fc.reg().uninterp = append(fc.reg().uninterp, "(declare-fun "+name+" (Int) "+sort+")")
+	}
+	return name
 }
